@@ -361,8 +361,15 @@ func randDoc(r *rng) docSpec {
 		}
 	}
 	ni := pick(r, []int{0, 0, 1, 2, 5})
+	// either distinct IDs, or the same IDs under different types (the pairs stay distinct)
+	sameIDs := r.bool()
+	incTypes := []string{"other", "small", "alltypes"}
 	for i := 0; i < ni; i++ {
-		d.included = append(d.included, randResSpec(r, sc, pick(r, []string{"other", "small", "alltypes"}), fmt.Sprintf("inc%d", (i*3)%ni)))
+		if sameIDs {
+			d.included = append(d.included, randResSpec(r, sc, incTypes[i%3], fmt.Sprintf("inc%d", i/3)))
+		} else {
+			d.included = append(d.included, randResSpec(r, sc, pick(r, incTypes), fmt.Sprintf("inc%d", (i*3)%ni)))
+		}
 	}
 	d.meta = randMeta(r)
 	if r.chance(1, 4) {
